@@ -37,6 +37,8 @@ mod kani_harness {
 	inst!(c19_tile_index_from_blob_12, 12, 14);
 	inst!(c19_tile_index_from_blob_13, 13, 15);
 	inst!(c19_tile_index_from_blob_24, 24, 26);
+	inst!(c19_tile_index_from_blob_48, 48, 50);
+	inst!(c19_tile_index_from_blob_120, 120, 122);
 
 	// C01: as_blob follows the 12-byte layout, from_blob(as_blob) = id, add_offset undoes the writer's shift
 	fn c01_layout<const N: usize>() {
